@@ -548,6 +548,10 @@ class Builder:
         if bl:
             bad = sorted(set(bad) | set(n(u) for u, r in rec['individuals'].items()
                                         if bl[0] in r['labels'] and not r['surrogate']))
+        over = (self.cfg['objective'].get('faults') or {}).get('by_size_over')
+        if over:
+            bad = sorted(set(bad) | set(n(u) for u, r in rec['individuals'].items()
+                                        if r['n_nodes'] > over[0] and not r['surrogate']))
         if (self.cfg['objective'].get('faults') or {}).get('only_initial'):
             bad = sorted(set(bad) | set(n(u) for u, r in rec['individuals'].items()
                                         if r['id'] not in rec.get('initial_ids', []) and not r['surrogate']))
@@ -732,6 +736,35 @@ def gen_cases(ctx):
         cfg['parallelization_mode'] = 'populational'
         cases.append({'group': 'metric:parallel_dispatcher', 'cfg': cfg})
         i += 1
+    # A5. parents passing through reproduction unchanged (low mutation probability, no crossover) while EVERY new
+    # graph fails, for enough generations that the success-rate window of ReproductionController (10 records,
+    # state kept across attempts and generations) is rewritten completely; plus optrun's passthrough / lucky-few
+    # families (all-after-n, by_size_over, only every 6th-9th evaluation succeeds)
+    window = [('evo', 'generational'), ('evo', 'steady_state'), ('surrogate', 'steady_state'), ('evo', 'generational')]
+    if not quick:
+        window = [(o, sch) for o in ('evo', 'surrogate') for sch in ('generational', 'steady_state')] * 4
+    for j, (opt, sch) in enumerate(window):
+        cfg = base_cfg(rng, opt, i)
+        ps = rng.choice([10, 12, 14])
+        cfg.update({'scheme': sch, 'pop_size': ps, 'max_pop_size': ps, 'mutation_prob': rng.choice([0.3, 0.4]),
+                    'crossover': ['none'], 'crossover_prob': 0.0, 'mutation': rng.choice([['single_add'], ['single_add', 'single_change']]),
+                    'initial': rng.choice(['three', 'mixed_sizes', 'two']), 'num_of_generations': rng.choice([9, 10, 12]),
+                    'early_stopping_iterations': None, 'diversity_check': -1, 'selection': ['tournament'],
+                    'elitism': rng.choice(['keep_n_best', 'none'])})
+        cfg['objective'] = {'metrics': [rng.choice(['size', 'label', 'balance'])], 'multi': False,
+                            'faults': {'all_after': [ps, KINDS[i % 3]]}}     # initial + extended population evaluate
+        cases.append({'group': 'metric:passthrough', 'cfg': cfg})
+        i += 1
+    for fam in ('passthrough_config', 'lucky_few_config'):
+        if hasattr(optrun, fam):
+            for rep in range(ctx.budget(2 if fam == 'passthrough_config' else 1, 12)):
+                cfg = getattr(optrun, fam)(rng)
+                cfg['show_progress'] = bool(i % 2)
+                cfg['timeout_min'] = 5.0
+                if fam == 'passthrough_config':
+                    cfg['num_of_generations'] = max(cfg['num_of_generations'], 8)
+                cases.append({'group': 'metric:passthrough', 'cfg': cfg})
+                i += 1
     # B. persistence faults (populational classes dump; the random-search family never does)
     ios = [{'mode': 'ok'}, {'mode': 'block_from', 'n': 0}, {'mode': 'block_from', 'n': 1}, {'mode': 'block_from', 'n': 2},
            {'mode': 'save_patch', 'n': 0}, {'mode': 'save_patch', 'n': 3}, {'mode': 'save_patch', 'n': 7},
